@@ -225,6 +225,67 @@ func spawnScenario(fromEffect bool, bound int) *vsched.Scenario {
 	}
 }
 
+// twinScenario: two mailboxes obtained from the same constructor are independent: the first one's
+// work blocks until the second one's work has run (served by one goroutine or one channel they would
+// deadlock), and each processes exactly what was submitted to it. Covers every constructor.
+func twinScenario(ctor string, bound int) *vsched.Scenario {
+	fam := "twin-" + ctor
+	return &vsched.Scenario{
+		Name:  "twin-mailboxes/" + ctor,
+		Bound: bound,
+		Body: func() {
+			gate := make(chan int, 1)
+			var post [2]func(k int)
+			for i := 0; i < 2; i++ {
+				i := i
+				work := func(k int) {
+					vsched.Event("enter", i, k)
+					if i == 0 {
+						<-gate // until mailbox 1 has processed its message
+					} else {
+						gate <- 1
+					}
+					vsched.Event("leave", i, k)
+				}
+				switch ctor {
+				case "Handler.New":
+					h := fpgo.Handler.New()
+					post[i] = func(k int) { h.Post(func() { work(k) }) }
+				case "Handler.NewByCh":
+					h := fpgo.Handler.NewByCh(make(chan func(), 1))
+					post[i] = func(k int) { h.Post(func() { work(k) }) }
+				case "Actor.New":
+					a := fpgo.Actor.New(func(self *fpgo.ActorDef[interface{}], m interface{}) { work(m.(int)) })
+					post[i] = func(k int) { a.Send(k) }
+				case "Actor.NewByOptions":
+					a := fpgo.Actor.NewByOptions(func(self *fpgo.ActorDef[interface{}], m interface{}) { work(m.(int)) }, make(chan interface{}, 1), map[string]interface{}{})
+					post[i] = func(k int) { a.Send(k) }
+				case "ActorNewGenerics":
+					a := fpgo.ActorNewGenerics(func(self *fpgo.ActorDef[int], m int) { work(m) })
+					post[i] = a.Send
+				default: // ActorNewByOptionsGenerics
+					a := fpgo.ActorNewByOptionsGenerics(func(self *fpgo.ActorDef[int], m int) { work(m) }, make(chan int, 1), nil)
+					post[i] = a.Send
+				}
+			}
+			vsched.GoNamed("sender0", func() { post[0](0) })
+			vsched.GoNamed("sender1", func() { post[1](0) })
+		},
+		Check: func(r *vsched.Result) []vsched.Failure {
+			fs := e1.Basic("C12", fam, r, nil)
+			if len(r.Panics) > 0 {
+				return fs
+			}
+			for i := 0; i < 2; i++ {
+				if e1.Count(r, "enter", i, 0) != 1 || e1.Count(r, "leave", i, 0) != 1 {
+					fs = append(fs, e1.Fail("C12|"+fam+"|exactly-once", "mailbox %d processed its message %d time(s) (completed %d)", i, e1.Count(r, "enter", i, 0), e1.Count(r, "leave", i, 0)))
+				}
+			}
+			return fs
+		},
+	}
+}
+
 func scenarios(tier string) []*vsched.Scenario {
 	b := 2
 	caps := []int{0, 1, 2}
@@ -250,5 +311,8 @@ func scenarios(tier string) []*vsched.Scenario {
 		out = append(out, handlerScenario(1, 3, 2, 2), actorScenario(1, 3, 2, 2), handlerScenario(0, 4, 1, 2), actorScenario(0, 4, 1, 2))
 	}
 	out = append(out, spawnScenario(false, b), spawnScenario(true, b))
+	for _, c := range []string{"Handler.New", "Handler.NewByCh", "Actor.New", "Actor.NewByOptions", "ActorNewGenerics", "ActorNewByOptionsGenerics"} {
+		out = append(out, twinScenario(c, b))
+	}
 	return out
 }
